@@ -182,15 +182,32 @@ def route_kinds(chk, prog):
         for s in blk["stmts"]:
             rv = s.get("rv")
             if rv and rv.get("k") == "agg" and rv.get("adt", "").endswith("RouteConfig"):
-                f = dict(zip(rv["fields"], [core.describe(prog, b, o) for o in rv["ops"]]))
-                rt = f["route_type"][2] if f["route_type"][0] == "variant" else None
-                facts = panics.cmp_facts(prog, b, blk_i)
-                truth = {}
-                for (a, op, r) in facts:
-                    if isinstance(a, tuple) and a and a[0] == "pred" and a[1] == "contains_key" and op == "==" and len(a[2]) > 1 and a[2][1][0] == "lit":
-                        truth[a[2][1][1]] = r[1]
-                under = [k for k, v in truth.items() if v]
-                got[rt] = (under, f)
+                f0 = dict(zip(rv["fields"], [core.describe(prog, b, o) for o in rv["ops"]]))
+                # one construction site fed by a per-kind tuple `(route_type, path, load_balancer)` chosen in the if-chain: one record per
+                # alternative of that tuple, judged at the place the alternative is chosen
+                records = [(f0, blk_i)]
+                rtd = f0["route_type"]
+                if rtd[0] == "field" and isinstance(rtd[1], tuple) and rtd[1][0] == "multi" and len(rtd[1]) > 4 and all(isinstance(a, tuple) and a[0] == "tuple" for a in rtd[1][1]):
+                    M = rtd[1]
+
+                    def proj(d, alt):
+                        if isinstance(d, tuple):
+                            if d and d[0] == "field" and d[1] == M and isinstance(d[2], int) and d[2] < len(alt[1]):
+                                return alt[1][d[2]]
+                            return tuple(proj(x, alt) for x in d)
+                        if isinstance(d, list):
+                            return [proj(x, alt) for x in d]
+                        return d
+                    records = [({k_: proj(v_, alt) for k_, v_ in f0.items()}, db) for alt, db in zip(M[1], M[4])]
+                for f, at_blk in records:
+                    rt = f["route_type"][2] if f["route_type"][0] == "variant" else None
+                    facts = panics.cmp_facts(prog, b, at_blk)
+                    truth = {}
+                    for (a, op, r) in facts:
+                        if isinstance(a, tuple) and a and a[0] == "pred" and a[1] == "contains_key" and op == "==" and len(a[2]) > 1 and a[2][1][0] == "lit":
+                            truth[a[2][1][1]] = r[1]
+                    under = [k for k, v in truth.items() if v]
+                    got[rt] = (under, f)
     want = {"File": "file", "Directory": "directory", "Proxy": "proxy", "Redirect": "redirect"}
     for rt, key in want.items():
         under, f = got.get(rt, ([], {}))
@@ -209,9 +226,12 @@ def route_kinds(chk, prog):
     pat = [t for t in sp if core.describe(prog, b, t["args"][1]) == ("lit", 44) and desc_contains(core.describe(prog, b, t["args"][0]), lambda y: y[0] == "param" and y[2] == "wild")]
     chk.ob("R3.order", fn, "route patterns are the comma-separated list in order", len(pat) == 1 and not b.calls_to(r"::(rev|sort|sort_unstable|dedup)$"), "")
     trims = [c for c in prog.closures_of(fn) if c.calls_to(r"<impl str>::trim$")]
-    chk.ob("R3.order", fn, "each pattern is trimmed", bool(trims), "")
+    # (`.map(str::trim)`: the function item itself as the adaptor's argument)
+    trims += [t for blk, t in b.calls_to(r"Iterator::map$") if len(t["args"]) > 1 and core.describe(prog, b, t["args"][1])[0] == "fn" and core.describe(prog, b, t["args"][1])[1].endswith("<impl str>::trim")]
+    # (or trimmed where it is used: every `matches` value derives from trim(..))
+    chk.ob("R3.order", fn, "each pattern is trimmed", bool(trims) or bool(b.calls_to(r"<impl str>::trim$")), "")
     pushes = [t for blk, t in b.calls_to(r"Vec::<T, A>::(push|insert)$")]
-    chk.ob("R3.order", fn, "routes are appended in that order", all(t["callee"].endswith("::push") for t in pushes) and len(pushes) >= 5, f"{[t['callee'] for t in pushes]}")
+    chk.ob("R3.order", fn, "routes are appended in that order", all(t["callee"].endswith("::push") for t in pushes) and len(pushes) >= 1, f"{[t['callee'] for t in pushes]}")
 
 
 def error_lines(chk, prog):
@@ -320,7 +340,12 @@ def ordering(chk, prog):
             its = [core.describe(prog, b, t["args"][0]) for blk, t in b.calls_to(r"IntoIterator::into_iter$|IntoIterator>::into_iter$|slice::<impl \[T\]>::iter$|Vec::<T, A>::iter$")]
             chk.ob("R3.order", fn, "children are visited in stored (file) order",
                    bool(its) and not b.calls_to(r"::(rev|sort|sort_by|sort_by_key|sort_unstable|sort_unstable_by|sort_unstable_by_key|rfold|rfind|next_back|reverse)$"), "")
-    ps = prog.bodies.get(TREE + "parse_section")
+    # (the line loop may have been moved into a helper that parse_section delegates to: the rule follows the loop)
+    cands_ = [prog.bodies[x] for x in [TREE + "parse_section"] + [q for q in (getattr(prog, "new_functions", []) or []) if q.startswith(TREE)] if x in prog.bodies]
+    def _node_pushes(bb):
+        return [t for blk, t in bb.calls_to(r"Vec::<T, A>::push$") if "ConfigNode" in " ".join((t.get("arg_tys") or [])[:1])]
+    loops_ = [bb for bb in cands_ if len(_node_pushes(bb)) >= 2]
+    ps = loops_[0] if loops_ else prog.bodies.get(TREE + "parse_section")
     if ps:
         pushes = [t["callee"].split("::")[-1] for blk, t in ps.calls_to(r"Vec::<T, A>::(push|insert|sort|sort_by|sort_by_key|reverse|swap|retain|append|splice|drain|truncate|clear|remove|swap_remove|rotate_left|rotate_right|dedup)$|Extend<.*>>::extend$")
                   if "ConfigNode" in " ".join((t.get("arg_tys") or [])[:1])]
@@ -352,6 +377,20 @@ def ordering(chk, prog):
                     if len(inner) == 1:
                         l_ = inner[0]
                         continue
+                # ... or comes back from the inlined line-loop helper through `?`: Ok(values) -> branch -> Continue payload
+                if len(ds_) == 1 and ds_[0][2] == "assign" and ds_[0][3]["rv"]["k"] == "use" and core.op_local(ds_[0][3]["rv"]["o"]) is not None and \
+                        [e[0] for e in ds_[0][3]["rv"]["o"]["pl"]["p"]] in (["dc", "f"], ["f"]):
+                    l_ = core.op_local(ds_[0][3]["rv"]["o"])
+                    continue
+                if len(ds_) == 1 and ds_[0][2] == "call" and (ds_[0][3].get("callee") or "").endswith("Try::branch") and ds_[0][3]["args"] and core.op_local(ds_[0][3]["args"][0]) is not None:
+                    l_ = core.op_local(ds_[0][3]["args"][0])
+                    continue
+                oks_ = [d for d in ds_ if d[2] == "assign" and d[3]["rv"]["k"] == "agg" and d[3]["rv"].get("variant") in ("Ok", "Continue") and len(d[3]["rv"].get("ops") or []) == 1]
+                errs_ = [d for d in ds_ if d not in oks_ and ((d[2] == "assign" and d[3]["rv"]["k"] == "agg" and d[3]["rv"].get("variant") in ("Err", "Break")) or
+                                                               (d[2] == "call" and (d[3].get("callee") or "").endswith("from_residual")))]
+                if len(oks_) == 1 and len(oks_) + len(errs_) == len(ds_) and core.op_local(oks_[0][3]["rv"]["ops"][0]) is not None:
+                    l_ = core.op_local(oks_[0][3]["rv"]["ops"][0])
+                    continue
                 if len(ds_) != 1 or ds_[0][2] != "call" or not core.re.search(r"Vec::<T>::(new|with_capacity)$", ds_[0][3].get("callee") or ""):
                     single = False
                     detail.append(f"{ps.local_name(l_) or l_}: {len(ds_)} definition(s)")
@@ -383,7 +422,7 @@ def per_pattern_routes(chk, prog):
                                                 any(isinstance(a, tuple) and a and a[0] == "call" and core.re.search(r"Option::<T>::take$|mem::take$", a[1]) for a in y[1]))
                     chk.ob("R3.per_pattern", fn, f"RouteConfig.{f_} does not depend on the patterns before it", not used_up and not multi_state,
                            f"{f_} is taken out of a value with {used_up}: only the first pattern of `route /a, /b` gets it", where=b.where(blk_i))
-    chk.floor("RouteConfig construction sites", n, 3)
+    chk.floor("RouteConfig construction sites", n, 1)
 
 
 def quoted_values(chk, prog):
